@@ -406,6 +406,7 @@ pub fn run_property<P: Property>(prop: P, args: RunArgs) -> i32 {
         stats.checks += outcome.checks;
         if let Some(v) = new {
             let path = write_replay(&*prop, &args, &case, &v);
+            stats.samples.push(prop.sample(&case));
             write_evidence(&*prop, &args, &stats, total_cases, t0, 1);
             println!("regression case #{i} failed: {} — {}", v.signature, v.detail);
             println!("VIOLATION property={id} replay={}", path.display());
@@ -520,6 +521,9 @@ pub fn run_property<P: Property>(prop: P, args: RunArgs) -> i32 {
     let mut exit = 0;
     let mut violations = 0;
     if let Some(case) = failure {
+        if stats.samples.is_empty() {
+            stats.samples.push(prop.sample(&case));
+        }
         // re-run the shrunk case to get its violation text
         let (_, new, _) = decide(&*prop, &case);
         let v = new.unwrap_or_else(|| Violation::new(format!("{id}/unstable"), "shrunk case no longer fails on re-run"));
